@@ -313,7 +313,7 @@ def wrap_rule(T, oRule):
         else:
             d0 = cheap_digest(lAll0)
         D0 = deep_digest(oFile.lAllObjects) if T.deep else None
-        C0 = cfg_digest(getattr(T, "all_rules", []), skip=oRule) if T.deep else None
+        C0 = cfg_digest(getattr(T, "all_rules", []), skip=oRule) if (T.deep and getattr(T, "cfg_deep", False)) else None
         m0 = map_digest(oFile)
         nv0 = len(oRule.violations)
         try:
@@ -331,7 +331,7 @@ def wrap_rule(T, oRule):
         if not map_same:
             what = "the analysis changed the token index (oTokenMap)"
         if T.deep:
-            what = deep_diff(D0, deep_digest(oFile.lAllObjects)) or cfg_diff(C0, cfg_digest(getattr(T, "all_rules", []), skip=oRule)) or what
+            what = deep_diff(D0, deep_digest(oFile.lAllObjects)) or (cfg_diff(C0, cfg_digest(getattr(T, "all_rules", []), skip=oRule)) if C0 is not None else None) or what
             pure = pure and what is None
         if not pure:
             T.dirty = True
